@@ -160,7 +160,8 @@ def cancel_and_shutdown(ctx):
     # judged on the fully expanded _shutdown (however it is cut into helpers): signal + join the submitter, then one signal
     # per worker, then join every worker, then the monitor manager - each on every path, in that order
     x = ctx.expanded()
-    f = x.func('processpool.ProcessPoolDownloader._shutdown')
+    # (anchored on the caller that survives when _shutdown is written out in place)
+    f = x.func('processpool.ProcessPoolDownloader._shutdown_if_needed')
     g = x.cfg(f)
 
     def _over_workers(loop):
@@ -189,19 +190,23 @@ def cancel_and_shutdown(ctx):
             lp = q.in_loop(c)
             return [n for n in g.nodes if n.kind == 'for' and n.stmt is lp] if lp is not None else g.nodes_of(c)
         seq = [anchor(ev[n][0]) for n in names]
-        ok = all(g.must_pass([g.entry], a, [g.exit], g.NORMAL) for a in seq) and all(g.all_dominate(a, b, g.NORMAL) for a, b in zip(seq, seq[1:]))
+        # on every path on which the pool is shut down at all (the first event happens), every later event follows, in order
+        ok = all(g.must_pass(seq[0], a, [g.exit], g.NORMAL) for a in seq[1:]) and all(g.all_dominate(a, b, g.NORMAL) for a, b in zip(seq, seq[1:]))
     ctx.ob(f.qualname, '_shutdown: signal + join submitter -> one SHUTDOWN_SIGNAL per worker -> join every worker -> monitor manager', ok,
            f'found {[(n, len(ev.get(n, []))) for n in names]}: shutdown must wait until every queued download request was submitted, a worker without a signal never '
            'exits (shutdown hangs), an unjoined worker may still be writing, and the manager hosts the monitor the workers still talk to', node=f.node)
-    f = ctx.func('processpool.ProcessPoolDownloader._start_if_needed')
-    cs = [c for c in own_calls(f.node) if (dotted(c.func) or '') == 'self._start']
-    ok = len(cs) == 1 and 'self._start_lock' in q.locks_held(cs[0]) and q.guards_imply(q.guards_under_lock(cs[0], 'self._start_lock'), 'not self._started')
-    ctx.ob(f, 'start only when not started, decided under the start lock', ok,
+    f = x.func('processpool.ProcessPoolDownloader._start_if_needed')
+    cs = [n for n in own_nodes(f.node) if isinstance(n, ast.Assign) and any(dotted(t) == 'self._started' for t in n.targets)
+          and isinstance(n.value, ast.Constant) and n.value.value is True]
+    starts = [c for c in own_calls(f.node) if isinstance(c.func, ast.Attribute) and c.func.attr == 'start' and not c.args or (dotted(c.func) or '') == 'self._manager.start']
+    ok = len(cs) == 1 and bool(starts) and all('self._start_lock' in q.locks_held(c) and q.guards_imply(q.guards_under_lock(c, 'self._start_lock'), 'not self._started')
+                                              for c in cs + starts)
+    ctx.ob(f.qualname, 'start only when not started, decided under the start lock', ok,
            'a second caller that tests the flag outside the lock (or not again inside it) starts a second set of workers: twice max_request_processes requests in flight, '
            'and two monitors')
-    f = ctx.func('processpool.ProcessPoolDownloader._shutdown_if_needed')
-    cs = [c for c in own_calls(f.node) if (dotted(c.func) or '') == 'self._shutdown']
-    ctx.ob(f, 'shutdown only when started, under the start lock', len(cs) == 1 and q.guards_imply(q.guards(cs[0]), 'self._started') and 'self._start_lock' in q.locks_held(cs[0]), 'shutdown()/start race')
+    f = x.func('processpool.ProcessPoolDownloader._shutdown_if_needed')
+    cs = [c for c in own_calls(f.node) if (dotted(c.func) or '') == 'self._manager.shutdown']
+    ctx.ob(f.qualname, 'shutdown only when started, under the start lock', len(cs) == 1 and q.guards_imply(q.guards(cs[0]), 'self._started') and 'self._start_lock' in q.locks_held(cs[0]), 'shutdown()/start race', node=f.node)
     f = ctx.func('processpool.TransferMonitor.poll_for_result')
     g = ctx.cfg(f)
     w = [x for c in own_calls(f.node) if isinstance(c.func, ast.Attribute) and c.func.attr == 'wait_till_done' for x in g.nodes_of(c)]
